@@ -92,7 +92,7 @@ def strategy(tier):
 
 
 def hyp_examples(tier):
-    return 6000 if tier == "quick" else 300000
+    return 12000 if tier == "quick" else 300000
 
 
 def _size(item) -> int:
